@@ -34,6 +34,9 @@ class Run:
         self.sources = []
         self.node = None
         self.started = []
+        self.ndeliv = 0
+        self.mixacks = []          # per ack: global index of the delivery whose future was resolved (-1: none)
+        self.mixtasks = []         # per "task" inside a mix: the job completed (None if there was none)
 
     def build(self):
         from streamz import Stream
@@ -81,11 +84,35 @@ class Run:
             raise KeyError(k)
         self.node = n
         run = self
-        if self.case.get("sink", "ctl") == "ctl":
+        mode = self.case.get("sink", "ctl")
+        if mode == "ctl":
             def sinkf(x, metadata=None):
                 fut = run.loop.create_future()
+                fut._didx = run.ndeliv - 1
                 run.outstanding.append(fut)
                 return fut
+        elif mode == "coro":
+            # a native coroutine as consumer: the sink returns a coroutine OBJECT
+            # (its body starts only when the node's caller schedules it: the delivery index is taken at call time)
+            def sinkf(x, metadata=None):
+                didx = run.ndeliv - 1
+
+                async def body():
+                    fut = run.loop.create_future()
+                    fut._didx = didx
+                    run.outstanding.append(fut)
+                    await fut
+                return body()
+        elif mode == "tornado":
+            # a tornado-style coroutine as consumer
+            from tornado import gen
+
+            @gen.coroutine
+            def sinkf(x, metadata=None):
+                fut = run.loop.create_future()
+                fut._didx = run.ndeliv - 1
+                run.outstanding.append(fut)
+                yield fut
         else:
             def sinkf(x, metadata=None):
                 return None
@@ -95,6 +122,7 @@ class Run:
         def wrapped(x, who=None, metadata=None):
             mids = [(m['id'], 'ref' in m) if isinstance(m, dict) and 'id' in m else (999999, False) for m in (metadata or [])]
             run.deliv.append([run.loop.ticks(), x, mids])
+            run.ndeliv += 1
             return orig(x, who=who, metadata=metadata)
         self.sink.update = wrapped
 
@@ -107,6 +135,57 @@ class Run:
                     cb(*a, **k)
             self.counters[i] = RefCounter(initial=0, cb=(lambda i=i: self.fired.append(i)), loop=L())
         return self.counters[i]
+
+    def thunk(self, act):
+        """the immediate effect of a sub-action of a "mix" (run inside a loop callback)"""
+        kind = act[0]
+        if kind == "emit":
+            _, src, vj, mdj = act
+            md = []
+            for (i, r) in mdj:
+                d = {"id": i}
+                if r:
+                    d["ref"] = self.counter(i)
+                md.append(d)
+            eid = self.nemit
+            self.nemit += 1
+
+            def go():
+                try:
+                    fut = self.sources[src].emit(val_from_json(vj), metadata=md if md else None)
+                except Exception:
+                    self.failed.append(eid)
+                    return
+
+                async def waiter():
+                    try:
+                        await fut
+                        self.done.append(eid)
+                    except Exception:
+                        self.failed.append(eid)
+                self.loop.create_task(waiter())
+            return go
+        if kind == "ack":
+            def go():
+                if self.outstanding:
+                    f = self.outstanding.pop(0)
+                    f.set_result(None)
+                    self.mixacks.append(f._didx)
+                else:
+                    self.mixacks.append(-1)
+            return go
+        if kind == "task":
+            k = act[1]
+
+            def go():
+                if k < len(self.tasks):
+                    x, f = self.tasks.pop(k)
+                    f.set_result(x * 10 if isinstance(x, int) else x)
+                    self.mixtasks.append(x)
+                else:
+                    self.mixtasks.append(None)
+            return go
+        raise KeyError(kind)
 
     def do(self, act):
         kind = act[0]
@@ -215,14 +294,40 @@ class Run:
                     self.loop.create_task(waiter())
                 self.loop.call_soon(go1)
             self.loop.settle()
+        elif kind == "mix":
+            # several sub-actions (emit / ack / task) WITHOUT letting the loop go quiescent in between:
+            # gap -1: all inside one loop callback; gap 0: consecutive callbacks scheduled up front;
+            # gap g >= 1: each sub-action is scheduled g loop iterations after the previous one returned
+            _, gap, subs = act
+            thunks = [self.thunk(sa) for sa in subs]
+            if gap < 0:
+                self.loop.call_soon(lambda: [t() for t in thunks])
+            elif gap == 0:
+                for t in thunks:
+                    self.loop.call_soon(t)
+            else:
+                def go_k(k):
+                    thunks[k]()
+                    if k + 1 < len(thunks):
+                        hop(gap - 1, k + 1)
+
+                def hop(n, k):
+                    if n <= 0:
+                        self.loop.call_soon(go_k, k)
+                    else:
+                        self.loop.call_soon(hop, n - 1, k)
+                self.loop.call_soon(go_k, 0)
+            self.loop.settle()
         elif kind == "ack":
             if self.outstanding:
                 f = self.outstanding.pop(0)
+                self.mixacks.append(f._didx)
                 self.loop.call_soon(lambda: f.set_result(None))
             self.loop.settle()
         elif kind == "ackfail":
             if self.outstanding:
                 f = self.outstanding.pop(0)
+                self.mixacks.append(f._didx)
                 self.loop.call_soon(lambda: f.set_exception(RuntimeError("sink failed")))
             self.loop.settle()
         elif kind == "task":
@@ -240,7 +345,9 @@ class Run:
         o = {"now": self.loop.ticks(), "deliv": self.deliv, "done": sorted(self.done), "failed": sorted(self.failed),
              "counts": [self.counters[i].count if i in self.counters else 0 for i in range(nrc)],
              "fired": list(self.fired), "nout": len(self.outstanding), "ntasks": len(self.tasks),
-             "started": list(self.started)}
+             "started": list(self.started), "mixacks": self.mixacks, "mixtasks": self.mixtasks}
+        self.mixacks = []
+        self.mixtasks = []
         self.deliv = []
         self.done = []
         self.failed = []
@@ -251,8 +358,10 @@ class Run:
 def nrc_of(case):
     m = -1
     for a in case["actions"]:
-        if a[0] == "emit":
-            for (i, r) in a[3]:
+        for sa in ([a] if a[0] == "emit" else (a[2] if a[0] == "mix" else [])):
+            if sa[0] != "emit":
+                continue
+            for (i, r) in sa[3]:
                 m = max(m, i)
     return m + 1
 
